@@ -383,7 +383,15 @@ func (s *Solver) getModel() map[string]ModelVal {
 			return model
 		}
 		s.send(sb.String())
+		// model construction over sequences can run away in z3 4.8.12: same watchdog as for check-sat
+		timer := time.AfterFunc(30*time.Second, func() {
+			s.dead = true
+			if s.cmd != nil && s.cmd.Process != nil {
+				s.cmd.Process.Kill()
+			}
+		})
 		r, err := s.readSexpr()
+		timer.Stop()
 		if err != nil || strings.HasPrefix(r, "(error") {
 			s.Errors = append(s.Errors, "get-value: "+r)
 			return model
